@@ -150,7 +150,7 @@ def add_outer_names_in_macro(rng, prog, gate="vfg", executable=False):
         return prog, 0
     used = {s[1] for s in prog[1:] if s[0] in ("let", "register", "map", "macro")}
     kname, aname, bname, mname = "vfk", "vfone", "vfsl", "vfpick"
-    if {kname, aname, bname, mname} & used:
+    if {kname, aname, bname, mname, "vfafter"} & used:
         return prog, 0
     q, n = regs[0][1], regs[0][2]
     v = rng.randrange(n - 1)
@@ -160,11 +160,14 @@ def add_outer_names_in_macro(rng, prog, gate="vfg", executable=False):
     rng.shuffle(uses)
     body = ("sequential_block",) + tuple(uses[:rng.randint(1, 3)])
     mac = ("macro", mname, kname, body)
+    # ... and a macro declared AFTER it that has no parameter of that name: there the name is the constant again
+    later = ("macro", "vfafter", ("sequential_block", ("gate", gate, ("array_item", q, kname)), ("gate", gate, aname)))
     items = list(prog[1:])
     k = max([j for j, s in enumerate(items) if s[0] in sx.HEADER], default=-1)
     items = items[:k + 1] + hdr + items[k + 1:]
     k = max([j for j, s in enumerate(items) if s[0] in sx.HEADER or s[0] == "macro"], default=-1)
-    items = items[:k + 1] + [mac] + items[k + 1:]
+    items = items[:k + 1] + [mac, later] + items[k + 1:]
     call = ("gate", mname, v2)
-    items += [("gate", "prepare_all"), call, ("gate", "measure_all")] if executable else [call]
+    call2 = ("gate", "vfafter")
+    items += [("gate", "prepare_all"), call, call2, ("gate", "measure_all")] if executable else [call, call2]
     return ("circuit",) + tuple(items), 1
